@@ -442,7 +442,10 @@ pub fn run(ctx: &Ctx) {
                 let c = gen_case(tape);
                 let h = hash64(format!("{:?}{:?}", c.decls, c.ty).as_bytes());
                 rep.nontrivial(h);
+                // samples: aggregates rather than bare leaves
+                if st.depth >= 1 {
                 rep.sample_hashed(h, || json!({"type": type_name(&c.decls, &c.ty), "decls": decls_source(&c.decls), "classified": format!("{:?}", info.cl), "value0": val_json(&c.vals[0]), "encoding0": hex::encode(enc(&c.decls, &c.ty, &c.vals[0])), "invalid_inputs": c.bad.iter().map(|b| b.0.clone()).take(4).collect::<Vec<_>>()}));
+                }
             }
             Ok(())
         }
@@ -467,7 +470,7 @@ pub fn run(ctx: &Ctx) {
     }
     rejects.finish(&rep);
     comp::drop_thread_compiler();
-    rep.finish();
+    crate::finish(&rep);
 }
 
 pub fn replay(case: &Value) -> Result<bool, String> {
